@@ -134,6 +134,9 @@ def header_sets(nm):
         [('Host', 'other.example:8081')],
         [('Range', 'bytes=x'), ('If-Modified-Since', 'garbage'), ('If-Match', 'nonsense'), ('Date', 'x'), ('X-Int', 'x')],
         [('Range', 'items=1-2, 5-6'), ('Forwarded', 'garbage;;'), ('Accept', 'nonsense')],
+        # the connecting peer's own address in the MIDDLE of the forwarding chain (last-hop test vs membership)
+        [('X-Forwarded-For', '127.0.0.1, 9.9.9.9')],
+        [('Forwarded', 'for=127.0.0.1, for=9.9.9.9')],
         # a repeated header whose FIRST occurrence is empty (truthiness vs membership when folding)
         [(h, ''), (h, 'beta'), ('X-Forwarded-For', ''), ('X-Forwarded-For', '203.0.113.9')],
     ]
